@@ -69,9 +69,10 @@ Definition clause_of (fmt : Z) (unsigned : bool) (sh : shape) (ix : index) : Z :
   else if (fmt =? fmt_gcxs) && nd2 && existsb is_new ix && (n_kept sh ix =? 0) then 5     (* D22 gcxs *)
   else if (fmt =? fmt_gcxs) && nd2 && existsb is_new ix && (n_kept sh ix =? 1) then 10    (* D27 *)
   else if (fmt =? fmt_gcxs) && nd2 && existsb is_new ix && int_before_none false ix then 11   (* D28 *)
-  else if (fmt =? fmt_dok) && is_nil sh then 8                            (* D22 dok: 0-d *)
-  else if (fmt =? fmt_dok) && is_nil ix then 6                            (* D22 dok: x[()] *)
-  else if (fmt =? fmt_dok) && all_arrays ix then 7                        (* D24 DOK _fancy_getitem *)
+  (* DOK: a non-empty key of index sequences that does not name every axis is refused (NotImplementedError).
+     (The former DOK clauses 6 — x[()] —, 7 — D24, unnormalised fancy keys — and 8 — 0-d DOK — are repaired:
+     a recurrence is a plain violation.) *)
+  else if (fmt =? fmt_dok) && all_arrays ix && negb (length ix =? length sh)%nat then 16
   (* D26: all axes indexed by integers plus an Ellipsis that swallows nothing: NumPy returns a 0-d array, the
      code a scalar — COO/DOK unless the Ellipsis is the last entry; GCXS (ndim >= 2: get_single_element) always *)
   else if existsb is_ell ix && (negb (last_is_ellipsis ix) || ((fmt =? fmt_gcxs) && nd2))
